@@ -22,13 +22,19 @@ from harness._usb2dev import build_device
 PROPERTY = "C10"
 TECHNIQUE = "exhaustive enumeration of the setup-packet product from several pre-states; packet-level host, one canonical transfer per macro action"
 LEVEL_TEXT = ("Every setup packet of the DESIGN.md product (8192 packets, of which those outside the implemented/claimed set are judged) is sent to the "
-              "real USBDevice netlist from reset and from five non-initial states (addressed+configured, abandoned GET_DESCRIPTOR data stage, pending "
-              "SET_ADDRESS, pending CLEAR_FEATURE(ENDPOINT_HALT), after a stalled request), for three handler line-ups; the canonical transfer is run "
+              "real USBDevice netlist from reset and from non-initial states (addressed+configured, after a stalled request, and every implemented "
+              "request left unfinished: only its SETUP seen / its first IN answered but the host's ACK lost / GET_DESCRIPTOR abandoned mid data stage), "
+              "for three handler line-ups; the canonical transfer is run "
               "and every device packet, the address/configuration registers (every cycle) and the bulk endpoint's data toggle are checked.")
 
 IMPLEMENTED_STD = (0, 1, 5, 6, 8, 9)      # GET_STATUS, CLEAR_FEATURE, SET_ADDRESS, GET_DESCRIPTOR, GET_CONFIGURATION, SET_CONFIGURATION
 PRE = ("reset", "configured", "abandoned-get-descriptor", "pending-set-address", "pending-clear-halt", "after-stalled-request")
 A_CFG = 0x33
+# every implemented request, left unfinished: "setup" = only the SETUP transaction happened (transfer abandoned), "noack" = the first
+# data/status IN transaction was answered but the host's ACK never reached the device (lost ACK, then the host moved on)
+IMPLEMENTED = {"set-address": (0x00, 5, 0x35, 0, 0), "set-configuration": (0x00, 9, 1, 0, 0), "clear-halt": (0x02, 1, 0, 0x81, 0),
+               "get-status": (0x80, 0, 0, 0, 2), "get-configuration": (0x80, 8, 0, 0, 1), "get-descriptor": (0x80, 6, 0x0100, 0, 18)}
+UNFINISHED = tuple(f"unfinished:{r}:{st}" for r in IMPLEMENTED for st in ("setup", "noack"))
 
 
 def product():
@@ -45,13 +51,19 @@ def product():
 
 
 def configs(tier):
-    cs = [dict(dut="std", pre=p) for p in PRE]
-    cs += [dict(dut="acm", pre="reset"), dict(dut="acm", pre="pending-set-address"), dict(dut="acm", pre="configured")]
-    cs += [dict(dut="skip", pre="reset"), dict(dut="skip", pre="configured"), dict(dut="skip", pre="pending-set-address")]
-    if tier == "thorough":
-        cs += [dict(dut=d, pre=p) for d in ("acm", "skip") for p in PRE if dict(dut=d, pre=p) not in cs]
-        for c in cs: c["chain"] = 1
-        cs += [dict(dut="std", pre="reset", gap=3, pace=2), dict(dut="std", pre="configured", gap=4, pace=1)]
+    """pre = one pre-state (run in the prologue; full product menu) or "unfinished-all" (the pre-state is the first action of every path,
+    chosen among all UNFINISHED ones; reduced product menu unless menu="full")"""
+    if tier == "quick":
+        cs = [dict(dut="std", pre=p) for p in ("reset", "configured", "pending-set-address", "unfinished:set-configuration:noack", "after-stalled-request")]
+        cs += [dict(dut="acm", pre="reset"), dict(dut="acm", pre="configured"), dict(dut="skip", pre="reset"), dict(dut="skip", pre="configured")]
+        cs += [dict(dut=d, pre="unfinished-all") for d in ("std", "acm", "skip")]
+        cs += [dict(dut="std", pre="abandoned-get-descriptor", menu="reduced"), dict(dut="std", pre="pending-clear-halt", menu="reduced")]
+        return cs
+    cs = [dict(dut=d, pre=p) for d in ("std", "acm", "skip") for p in PRE + UNFINISHED]
+    for c in cs:
+        if c["pre"] in ("reset", "configured"): c["chain"] = 1
+    cs += [dict(dut="std", pre="reset", gap=3, pace=2), dict(dut="std", pre="configured", gap=4, pace=1),
+           dict(dut="std", pre="unfinished-all", gap=3, pace=2, menu="full")]
     return cs
 
 
@@ -67,6 +79,10 @@ class UnsupportedSpec(Spec):
         self.dut = cfg["dut"]
         self.levels = 2 if cfg.get("chain") else 1
         self.menu = [s for s in product() if self.unsupported(s)]
+        self.multi = cfg["pre"] == "unfinished-all"
+        if cfg.get("menu", "reduced" if self.multi else "full") == "reduced":
+            # all request types, directions, bRequests and lengths; recipients device/endpoint; one wValue/wIndex
+            self.menu = [s for s in self.menu if s[2] == 1 and s[3] == 0x81 and (s[0] & 0x1F) in (0, 2)]
         sanity = [(0x80, 0, 0, 0, 2), (0x80, 6, 0x0100, 0, 2), (0x02, 1, 0, 0x81, 0)]       # GET_STATUS, GET_DESCRIPTOR(device), CLEAR_FEATURE(HALT, ep 0x81)
         if self.dut == "skip": sanity = sanity[1:]
         if self.dut == "acm": sanity.append((0x21, 0x20, 0, 0, 2))                          # SET_LINE_CODING (claimed by the ACM handler)
@@ -87,7 +103,7 @@ class UnsupportedSpec(Spec):
             if req not in IMPLEMENTED_STD: return True
             if req == 1: return not (rcp == 2 and val == 0)             # CLEAR_FEATURE other than ENDPOINT_HALT on an endpoint
             return False
-        if typ == 1 and self.dut == "acm" and req == 0x20: return False   # SET_LINE_CODING is claimed
+        if typ == 1 and self.dut == "acm" and req == 0x20 and not (bm & 0x80): return False   # SET_LINE_CODING (host-to-device) is claimed
         return True
 
     def build(self):
@@ -125,6 +141,7 @@ class UnsupportedSpec(Spec):
         g = ["stalled-at-data-in", "stalled-at-status", "out-data-not-acked", "supported-request-answered", "toggle-compared", "judged:standard",
              "judged:class", "judged:vendor", "judged:reserved", "judged:clear-feature-variant"]
         if self.dut == "skip": g.append("judged:skiplisted")
+        if self.multi: g.append("pre:in-answered-ack-lost")
         return g
 
     # ---- transactions
@@ -149,55 +166,77 @@ class UnsupportedSpec(Spec):
     def _expect(self, what, got, want):
         if got != want: raise Violation("pre-state-script-failed", dict(step=what, got=got, expected=want))
 
+    def _run_pre(self, cur, pre):
+        """drive the device into the named pre-state; returns the device address in force afterwards"""
+        addr = 0
+        if pre == "configured":
+            self._setup(cur, 0, (0x00, 5, A_CFG, 0, 0))
+            self._expect("set_address status", self._in(cur, 0, 0, True), ("data", U.DATA1, ()))
+            addr = A_CFG
+            if self.dut != "skip":
+                self._setup(cur, addr, (0x00, 9, 1, 0, 0))
+                self._expect("set_configuration status", self._in(cur, addr, 0, True), ("data", U.DATA1, ()))
+        elif pre == "abandoned-get-descriptor":
+            self._setup(cur, 0, (0x80, 6, 0x0100, 0, 18))
+            k = self._in(cur, 0, 0, True)
+            self._expect("get_descriptor first packet", k and (k[0], len(k[2])), ("data", 8))
+        elif pre == "pending-set-address":
+            self._setup(cur, 0, (0x00, 5, 0x35, 0, 0))
+        elif pre == "pending-clear-halt":
+            self._setup(cur, 0, (0x02, 1, 0, 0x81, 0))
+        elif pre == "after-stalled-request":
+            self._setup(cur, 0, (0xC0, 0x77, 0, 0, 2))
+            self._expect("vendor request data stage", self._in(cur, 0, 0, False), ("hs", U.STALL))
+            self._setup(cur, 0, (0x00, 3, 1, 0, 0))
+            self._expect("set_feature status stage", self._in(cur, 0, 0, False), ("hs", U.STALL))
+        elif pre.startswith("unfinished:"):
+            _, r, st = pre.split(":")
+            self._setup(cur, 0, IMPLEMENTED[r])
+            if st == "noack":
+                k = self._in(cur, 0, 0, False)        # data-stage resp. status-stage IN; the host's ACK is lost
+                if k is not None and k[0] == "data": self.cover["pre:in-answered-ack-lost"] += 1
+        elif pre != "reset":
+            raise KeyError(pre)
+        return addr
+
     def prologue(self, cur):
         host, pre = self.host, self.cfg["pre"]
         try:
             host.idle(cur, 4)
-            addr = 0
             k = self._in(cur, 0, 1, True)                      # ep1 toggle -> DATA1
             self._expect("in ep1", k and k[:2], ("data", U.DATA0))
-            if pre == "configured":
-                self._setup(cur, 0, (0x00, 5, A_CFG, 0, 0))
-                self._expect("set_address status", self._in(cur, 0, 0, True), ("data", U.DATA1, ()))
-                addr = A_CFG
-                if self.dut != "skip":
-                    self._setup(cur, addr, (0x00, 9, 1, 0, 0))
-                    self._expect("set_configuration status", self._in(cur, addr, 0, True), ("data", U.DATA1, ()))
-            elif pre == "abandoned-get-descriptor":
-                self._setup(cur, 0, (0x80, 6, 0x0100, 0, 18))
-                k = self._in(cur, 0, 0, True)
-                self._expect("get_descriptor first packet", k and (k[0], len(k[2])), ("data", 8))
-            elif pre == "pending-set-address":
-                self._setup(cur, 0, (0x00, 5, 0x35, 0, 0))
-            elif pre == "pending-clear-halt":
-                self._setup(cur, 0, (0x02, 1, 0, 0x81, 0))
-            elif pre == "after-stalled-request":
-                self._setup(cur, 0, (0xC0, 0x77, 0, 0, 2))
-                self._expect("vendor request data stage", self._in(cur, 0, 0, False), ("hs", U.STALL))
-                self._setup(cur, 0, (0x00, 3, 1, 0, 0))
-                self._expect("set_feature status stage", self._in(cur, 0, 0, False), ("hs", U.STALL))
+            addr = 0 if self.multi else self._run_pre(cur, pre)
             o = cur.peek(connect=1, valid=1, payload=0xA7, line_state=1)
             if o.active_address != addr: self._expect("address after script", o.active_address, addr)
         except PruneCollision:
             raise Violation("pre-state-script-failed", dict(step="bus collision"))
-        return (addr, o.active_config, self.levels)
+        return (addr, o.active_config, self.levels, 0 if self.multi else 1)
 
-    # env = (address, configuration, requests left)
-    def env0(self): return (0, 0, self.levels)
+    # env = (address, configuration, requests left, pre-state reached?)
+    def env0(self): return (0, 0, self.levels, 0 if self.multi else 1)
 
     def actions(self, env):
-        addr, cfg, left = env
+        addr, cfg, left, ready = env
+        if not ready: return [("pre", p) for p in UNFINISHED]
         if left == 0: return []
         if left == self.levels:
             return [("u",) + s for s in self.menu] + [("s",) + s for s in self.sanity]
         return [("u",) + s for s in self.probe_menu]
 
     def label(self, a):
+        if a[0] == "pre": return ["pre-state", a[1]]
         return [("unsupported" if a[0] == "u" else "supported (not judged)"),
                 dict(bmRequestType=hex(a[1]), bRequest=a[2], wValue=hex(a[3]), wIndex=hex(a[4]), wLength=a[5])]
 
     def apply(self, cur, env, a):
-        addr, cfg, left = env
+        addr, cfg, left, ready = env
+        if a[0] == "pre":
+            try:
+                self._run_pre(cur, a[1])
+            except PruneCollision:
+                raise Violation("pre-state-script-failed", dict(step="bus collision", pre=a[1]))
+            o = cur.peek(connect=1, valid=1, payload=0xA7, line_state=1)
+            return (o.active_address, o.active_config, left, 1)      # (whether an un-ACKed SET_ADDRESS may take effect is C08's business)
         s = tuple(a[1:])
         changes = []
         def watch(o):
@@ -215,10 +254,10 @@ class UnsupportedSpec(Spec):
         if changes:
             what = "address" if any(c[0] != addr for c in changes) else "configuration"
             raise Violation(f"unsupported:{self._cls}:{what}-changed", dict(setup=s, before=(addr, cfg), seen=changes))
-        return (addr, cfg, left - 1)
+        return (addr, cfg, left - 1, 1)
 
     def _sanity(self, cur, env, s):
-        addr, cfg, left = env
+        addr, cfg, left, _ = env
         self._setup(cur, addr, s)
         k = self._in(cur, addr, 0, False) if (s[0] & 0x80 or s[4] == 0) else self._out(cur, addr, 0, U.DATA1, (0x11, 0x22))
         if k is not None and (k[0] == "data" or k == ("hs", U.ACK)): self.cover["supported-request-answered"] += 1
